@@ -99,6 +99,24 @@ pub fn grammars(tier: &str) -> Vec<LexGrammar> {
         let alphabet = if space { vec!["a", "b", "c", " "] } else { vec!["a", "b", "c"] };
         kws.push(LexGrammar { id: g.name.clone(), g, toks, kind: "keyword", space_extra: space, alphabet });
     } }
+    // (vi) a `word` token next to PATTERN tokens that begin like a word and go on where the word token cannot (digits): such a
+    // token is no keyword - it competes in the main lexer, by length and then by definition order
+    let mut wordpats: Vec<LexGrammar> = vec![];
+    for (pi, p) in ["ab[0-9]*", "a[0-9]+", "abc?[0-9]?", "[ab]+1"].iter().enumerate() { for first in [true, false] { for with_kw in [false, true] {
+        let mut g = G::new(&format!("lxw_{}_{}_{}", pi, first as u8, with_kw as u8)).word("ident");
+        let mut toks: Vec<TokDef> = vec![];
+        let tagged = TokDef { name: "tagged".into(), expr: pat(p), is_string: false, re: p.to_string(), prec: 0, src: p.to_string() };
+        let ident = TokDef { name: "ident".into(), expr: pat("[a-c]+"), is_string: false, re: "[a-c]+".into(), prec: 0, src: "[a-c]+".into() };
+        let number = TokDef { name: "number".into(), expr: pat("[0-9]+"), is_string: false, re: "[0-9]+".into(), prec: 0, src: "[0-9]+".into() };
+        let kw = TokDef { name: "kw".into(), expr: s("ab"), is_string: true, re: "ab".into(), prec: 0, src: "ab".into() };
+        if with_kw { toks.push(kw); }
+        if first { toks.push(tagged); toks.push(ident); } else { toks.push(ident); toks.push(tagged); }
+        toks.push(number);
+        g = g.rule("source", rep(choice(toks.iter().map(|t| sym(&t.name)).collect())));
+        for t in &toks { g = g.rule(&t.name, t.expr.clone()); }
+        g = g.extras(vec![pat(" ")]);
+        wordpats.push(LexGrammar { id: g.name.clone(), g, toks, kind: "soup", space_extra: true, alphabet: vec!["a", "b", "c", "1", "2", " "] });
+    } } }
     // (iv) regex structure: every expression of nesting depth <= 2 over the atoms a, b, [ab] with the postfix operators
     // ? * + {0,1} {0,2} {1,2} {2} {2,} and the binary operators concatenation and alternation; sixteen of them per grammar,
     // each valid only after its own prefix character, so they never compete: the token after prefix k must match exactly
@@ -140,6 +158,7 @@ pub fn grammars(tier: &str) -> Vec<LexGrammar> {
     out.extend(kws);
     out.extend(structs);
     out.extend(classes);
+    out.extend(wordpats);
     out
 }
 
@@ -320,7 +339,15 @@ pub fn check_grammar(lg: &LexGrammar, maxlen: usize, res: &mut ShardResult) {
                     Some(w) => {
                         if xt.root_has_error() { res.violation("rejects-tokenizable-input", format!("{:?}: documented rules give {:?} but the parse has an error: {}", text, w, xt.sexp(&l.language)), case_json(lg, &text)); return; }
                         let got: Vec<(String, usize, usize)> = xt.nodes.iter().filter(|n| n.children.is_empty() && !n.extra && n.end > n.start).map(|n| (l.language.node_kind_for_id(n.kind_id).unwrap_or("?").to_string(), n.start, n.end)).collect();
-                        if got != w { res.violation("wrong-token-chosen", format!("{:?}: documented rules give {:?}, the lexer produced {:?}", text, w, got), case_json(lg, &text)); }
+                        if got != w {
+                            // Known finding: with a `word` token, a string that is extracted as a keyword takes part in the lexing
+                            // only THROUGH the word token; a pattern declared before the word token that matches the same text wins
+                            // against the word token and thereby against the string, although the documented rule prefers strings
+                            let first_diff = got.iter().zip(w.iter()).find(|(a, b)| a != b);
+                            let shadowed = lg.id.starts_with("lxw_") && got.len() == w.len() && matches!(first_diff, Some((a, b)) if a.0 == "tagged" && b.0 == "kw" && a.1 == b.1 && a.2 == b.2)
+                                && got.iter().zip(w.iter()).all(|(a, b)| a == b || (a.0 == "tagged" && b.0 == "kw" && a.1 == b.1 && a.2 == b.2));
+                            res.violation(if shadowed { "string-keyword-loses-to-earlier-pattern" } else { "wrong-token-chosen" }, format!("{:?}: documented rules give {:?}, the lexer produced {:?}", text, w, got), case_json(lg, &text));
+                        }
                     }
                 }
                 res.outcome(xt.nodes.len() as u64);
